@@ -302,7 +302,16 @@ func repeatedKeyPass(out *Out, t *Target, r *vschema.Rand, en []int32, modelOK b
 			if err := proto.Unmarshal(append([]byte(nil), first...), holder); err == nil {
 				g2 := &vval.StreamGen{R: r, S: t.S, G: g.G, Features: map[string]bool{"repeated-map-key": true, "merge-into-nonempty": true}, MaxDepth: 1}
 				decodeCase(out, t, g2, append([]byte(nil), second...), t.B.FromMessage(0, holder), true, false, false, modelOK)
+				// ... and the SAME entry again (key and value byte for byte what the target already holds): a decoder that
+				// spares itself the copy when nothing would change keeps a view of this second input (scribble oracle)
+				g3 := &vval.StreamGen{R: r, S: t.S, G: g.G, Features: map[string]bool{"repeated-map-key": true, "merge-into-nonempty": true, "identical-entry": true}, MaxDepth: 1}
+				decodeCase(out, t, g3, append([]byte(nil), first...), t.B.FromMessage(0, holder), true, false, false, modelOK)
 			}
+			// the same entry twice in one stream
+			g4 := &vval.StreamGen{R: r, S: t.S, G: g.G, Features: map[string]bool{"repeated-map-key": true, "identical-entry": true}, MaxDepth: 1}
+			same := append(append(append([]byte(nil), first...), 0xc0, 0x3e, 0x01), first...)
+			out.Count("identical_map_entry_cases")
+			decodeCase(out, t, g4, same, vval.Empty(t.S, 0), false, false, false, modelOK)
 		}
 	}
 }
